@@ -62,7 +62,7 @@ func lockOp(info *types.Info, call *ast.CallExpr) (path string, op string) {
 		return "", ""
 	}
 	switch sel.Sel.Name {
-	case "Lock", "RLock", "Unlock", "RUnlock":
+	case "Lock", "RLock", "Unlock", "RUnlock", "TryLock", "TryRLock":
 	default:
 		return "", ""
 	}
@@ -92,6 +92,20 @@ type locksetCfg struct {
 	// callers are checked to hold it.
 	HeldOnEntry map[string]map[string]int8
 	// MayExitWith: functions allowed to return holding locks different from entry (none by default)
+}
+
+// guardsLock reports whether path names a lock field of the configuration (base.field).
+func (cfg *locksetCfg) guardsLock(path string) bool {
+	i := strings.LastIndex(path, ".")
+	if i < 0 {
+		return false
+	}
+	for _, g := range cfg.Guards {
+		if g.Lock == path[i+1:] {
+			return true
+		}
+	}
+	return false
 }
 
 func (cfg *locksetCfg) guardFor(info *types.Info, sel *ast.SelectorExpr) *guardSpec {
@@ -236,6 +250,30 @@ func checkLocksetRet(c *Ctx, p *Prog, cfg *locksetCfg, fn *Fn, entry lockState, 
 			})
 			return s
 		},
+		// `if mu.TryLock() {` / `if !mu.TryRLock() { return }`: the lock is held on the succeeding edge only
+		Branch: func(cond ast.Expr, truth bool, s lockState) lockState {
+			e := unparen(cond)
+			for {
+				u, ok := e.(*ast.UnaryExpr)
+				if !ok || u.Op != token.NOT {
+					break
+				}
+				e, truth = unparen(u.X), !truth
+			}
+			call, ok := e.(*ast.CallExpr)
+			if !ok || !truth {
+				return s
+			}
+			switch path, op := lockOp(info, call); op {
+			case "TryLock":
+				s = s.clone()
+				s.lv[path] = 2
+			case "TryRLock":
+				s = s.clone()
+				s.lv[path] = 1
+			}
+			return s
+		},
 		Join: func(a, b lockState) lockState {
 			o := lockState{lv: map[string]int8{}}
 			for k, v := range a.lv {
@@ -304,6 +342,29 @@ func checkLocksetRet(c *Ctx, p *Prog, cfg *locksetCfg, fn *Fn, entry lockState, 
 					c.Bad(cfg.Rule, key, p.Pos(a.node.Pos()), fmt.Sprintf("%s-without-lock:%s.%s", kind, a.base, a.field),
 						fmt.Sprintf("%s of guarded field %s.%s needs %s on %s but the lockset here is %s on some path", kind, a.base, a.field, []string{"", "a read lock", "the write lock"}[need], a.lock, s))
 				}
+			}
+			// an unlock needs the lock: releasing a lock that is not held on some path either crashes the
+			// process or takes the lock away from another goroutine
+			if _, isDefer := n.(*ast.DeferStmt); !isDefer {
+				inspectNoLit(n, func(x ast.Node) bool {
+					call, ok := x.(*ast.CallExpr)
+					if !ok {
+						return true
+					}
+					path, op := lockOp(info, call)
+					if op != "Unlock" && op != "RUnlock" || !cfg.guardsLock(path) {
+						return true
+					}
+					res.Accesses++
+					key := fmt.Sprintf("%s#%s.%s", construct, path, op)
+					if s.lv[path] > 0 {
+						c.OK(cfg.Rule, key, p.Pos(call.Pos()), "")
+					} else {
+						c.Bad(cfg.Rule, key, p.Pos(call.Pos()), "unlock-without-lock:"+path,
+							fmt.Sprintf("%s.%s() is reached on a path where %s is not held (lockset %s): the runtime aborts, or the lock is released under another goroutine that holds it", path, op, path, s))
+					}
+					return true
+				})
 			}
 			// calls to functions that must be entered with a lock held
 			inspectNoLit(n, func(x ast.Node) bool {
